@@ -15,6 +15,7 @@
 -/
 import Cachelito.Props.C04
 import Cachelito.Props.C06
+import Cachelito.Props.C05
 import Cachelito.Props.T17m
 import Cachelito.Props.T18
 import Cachelito.Props.T19
@@ -113,6 +114,49 @@ theorem async_get_expired (c : AsyncCache K V F) (now : Nat) (k : K) (e : Entry 
     (by simpa [T06.cfgOf] using ht) (⟨c.cache, c.order, now, c.stats.hits, c.stats.misses⟩ : State K V) hi k e hl hage
   exact ⟨h1, h2, h3, h4, h7⟩
 
+
+/-! ## C05 on the translated `insert_with_memory` (memory bound after every completed store) -/
+
+/-- **sync global**: with `max_memory = M`, a consistent cache whose values fit, after `insert_with_memory` (the source's loop run
+    with the model's fuel) the estimated sizes of the cached values sum to at most `M` — whatever the value, policy, limit, draws -/
+theorem global_insert_with_memory_bound (A : F64 F) (c : GlobalCache K V F) (size : V → Nat) (now : Nat) (rs : List Nat)
+    (k : K) (v : V) (M : Nat) (ok : T08.ScoresOK A c) (hM : c.max_memory = some M)
+    (hi : Inv (⟨c.map, c.order, now, 0, 0⟩ : State K V)) (hb : totalMem size c.map ≤ M) :
+    totalMem size (Global.insert_with_memory A ⟨fun b => now - b, now⟩ size (T17m.memFuelG c k) rs c k v).map ≤ M := by
+  unfold T17m.memFuelG
+  rw [(T14.insert_with_memory_model A c size now 0 0 rs k v ok).1]
+  exact C05.insertMem_bound (T08.cfgOf c) (T02.srcTlru A c.frequency_weight) size rs ⟨c.map, c.order, now, 0, 0⟩ k v M
+    (by simpa [T08.cfgOf] using hM) hi hb
+
+/-- **thread-local** -/
+theorem thread_insert_with_memory_bound (A : F64 F) (c : ThreadCache K V F) (size : V → Nat) (now : Nat) (rs : List Nat)
+    (k : K) (v : V) (M : Nat) (ok : T11.ScoresOK A c) (hM : c.max_memory = some M)
+    (hi : Inv (⟨c.cache, c.order, now, 0, 0⟩ : State K V)) (hb : totalMem size c.cache ≤ M) :
+    totalMem size (Thread.insert_with_memory A ⟨fun b => now - b, now⟩ size (T17m.memFuelT c k) rs c k v).cache ≤ M := by
+  unfold T17m.memFuelT
+  rw [(T15.insert_with_memory_model A c size now 0 0 rs k v ok).1]
+  exact C05.insertMem_bound (T11.cfgOf c) (T02.srcTlru A c.frequency_weight) size rs ⟨c.cache, c.order, now, 0, 0⟩ k v M
+    (by simpa [T11.cfgOf] using hM) hi hb
+
+/-- **async** -/
+theorem async_insert_with_memory_bound (A : F64 F) (c : AsyncCache K V F) (size : V → Nat) (now : Nat) (rs : List Nat)
+    (k : K) (v : V) (M : Nat) (ok : T07.ScoresOK A c) (hM : c.max_memory = some M)
+    (hi : Inv (⟨c.cache, c.order, now, 0, 0⟩ : State K V)) (hb : totalMem size c.cache ≤ M) :
+    totalMem size (Async.insert_with_memory A ⟨fun _ => 0, now⟩ size (T18.memFuel c k) rs c k v).cache ≤ M := by
+  unfold T18.memFuel
+  rw [(T16.insert_with_memory_model A c size now 0 0 rs k v ok).1]
+  exact C05.insertMem_bound (T06.cfgOf c) (T06.srcTlruAsync A c.frequency_weight) size rs ⟨c.cache, c.order, now, 0, 0⟩ k v M
+    (by simpa [T06.cfgOf] using hM) hi hb
+
+/-- a value that is larger than `max_memory` on its own is not cached by the sync engine: the key is absent afterwards (C05 (3)) -/
+theorem global_oversize_not_cached (A : F64 F) (c : GlobalCache K V F) (size : V → Nat) (now : Nat) (rs : List Nat)
+    (k : K) (v : V) (M : Nat) (ok : T08.ScoresOK A c) (hM : c.max_memory = some M)
+    (hi : Inv (⟨c.map, c.order, now, 0, 0⟩ : State K V)) (hov : size v > M) :
+    lookup k (Global.insert_with_memory A ⟨fun b => now - b, now⟩ size (T17m.memFuelG c k) rs c k v).map = none := by
+  unfold T17m.memFuelG
+  rw [(T14.insert_with_memory_model A c size now 0 0 rs k v ok).1]
+  exact C05.oversize_not_cached (T08.cfgOf c) (T02.srcTlru A c.frequency_weight) size rs ⟨c.map, c.order, now, 0, 0⟩ k v M
+    (by simpa [T08.cfgOf] using hM) hi hov
 
 /-! ## C09 on the generated wrappers -/
 
